@@ -1343,7 +1343,27 @@ func (f *FuncCFG) PointOf(n ast.Node) (Point, bool) {
 // static type (deref) has the given type name ("" = any), e.g. ("KVStore","Set").
 func selectorCall(info *types.Info, c *ast.CallExpr, recvType, name string) bool {
 	se, ok := ast.Unparen(c.Fun).(*ast.SelectorExpr)
-	if !ok || se.Sel.Name != name {
+	if !ok {
+		// the same operation written as a package-level function taking the object as a parameter
+		fn := staticCallee(info, c)
+		if fn == nil || fn.Name() != name || info == nil {
+			return false
+		}
+		sig, _ := fn.Type().(*types.Signature)
+		if sig == nil || sig.Recv() != nil {
+			return false
+		}
+		if recvType == "" {
+			return true
+		}
+		for i := 0; i < sig.Params().Len(); i++ {
+			if tn := typeName(sig.Params().At(i).Type()); tn == recvType || shortTypeName(tn) == recvType {
+				return true
+			}
+		}
+		return false
+	}
+	if se.Sel.Name != name {
 		return false
 	}
 	if recvType == "" {
